@@ -8,7 +8,7 @@ import zlib
 from . import mserver, proto
 
 CLASSES = ["arbitrary", "truncate", "rdlen_lie", "huge_rdata", "many_records", "bad_prefs", "txt_chunks", "name_tricks",
-           "codec_letters", "empty", "boundary_payload", "step_payload", "counts_lie", "wrong_type", "rcode", "zlib", "raw", "frag_flood", "compressed_many", "names_fill_exactly", "cut_after_records"]
+           "codec_letters", "empty", "boundary_payload", "step_payload", "counts_lie", "wrong_type", "rcode", "zlib", "raw", "frag_flood", "compressed_many", "names_fill_exactly", "cut_after_records", "cross_type_fill"]
 
 
 def rb(rng, n):
@@ -287,6 +287,21 @@ def gen(rng, q, cls, step, ctx):
         if rng.random() < 0.3:
             rng.shuffle(rrs)
         return answer(q, rrs, qtype=t if t != qt else None)
+    if cls == "cross_type_fill":
+        # question and answer record disagree on the type, and the record data fills (or overfills) the buffer the client decodes
+        # into without a single NUL byte: opaque data asked for, a host-name list (MX/SRV) or text delivered - and the reverse
+        n = rng.choice([4094, 4095, 4096, 4097, 5000, 9000])
+        letter = rng.choice(b"hijktsuvr")
+        fill = bytes([letter]) + bytes(rng.choice(proto.B32) for _ in range(n - 1))
+        if rng.random() < 0.3:
+            fill = bytes([letter]) + bytes(rng.randrange(1, 256) for _ in range(n - 1))
+        rt = rng.choice([proto.T_MX, proto.T_SRV, proto.T_NULL, proto.T_PRIVATE, proto.T_CNAME, proto.T_TXT])
+        if rt == qt:
+            rt = proto.T_MX if qt != proto.T_MX else proto.T_NULL
+        qtype_field = rng.choice([None, None, proto.T_NULL, proto.T_PRIVATE, proto.T_TXT, proto.T_MX])
+        if rt == proto.T_TXT or qtype_field == proto.T_TXT and rng.random() < 0.5:
+            fill = b"".join(bytes([len(fill[i:i + 255])]) + fill[i:i + 255] for i in range(0, len(fill), 255))
+        return answer(q, [rr(PTR, rt, fill)], qtype=qtype_field)
     if cls == "cut_after_records":
         # an MX/SRV answer that breaks off after some complete records (ANCOUNT larger than what is there, the datagram cut inside
         # a later record, or a later RDLENGTH pointing behind the end): useless as a whole; whatever was read from the records in
